@@ -182,6 +182,7 @@ pub fn plan(tier: Tier, seed: u64) -> Vec<Campaign> {
         exhaustive: false,
         gen: Box::new(move |i| burst(seed, i)),
     });
+    v.push(Campaign { name: "disk_faults", budget: match tier { Tier::Quick => Budget::Count(2000), Tier::Thorough => Budget::Time(1) }, exhaustive: false, gen: Box::new(move |i| super::c06::disk_faults_for("C04", seed, i)) });
     v.push(Campaign { name: "extreme_sizes", budget: Budget::Count(match tier { Tier::Quick => 96, Tier::Thorough => 1200 }), exhaustive: false, gen: Box::new(move |i| extreme_sizes(seed, i)) });
     v
 }
